@@ -15,7 +15,9 @@ the Coq model.  Kinds of cases:
   graph  Graph.find_unique_lca / find_lefthand_merger (environment of ancestor:/mainline:)
   seq    questions (specifiers, dotted revnos both ways, revnos) asked of ONE write-locked
          Branch object, interleaved with tip changes (set_last_revision_info, pull --overwrite):
-         every answer must be the one for the tip of that moment (no stale cache)
+         every answer must be the one for the tip of that moment (no stale cache); and a reader that
+         holds one READ lock while another Branch object moves the tip must keep answering for
+         the tip it saw first
 """
 import daglib
 import msortlib
@@ -97,6 +99,8 @@ def spec_str(s, other_url=None):
         return "ancestor:" + other_url
     if k == "mainline":
         return "mainline:" + spec_str(s[1], other_url)
+    if k == "revnoat":
+        return "revno:%d:%s" % (s[1], other_url)
     raise ValueError(s)
 
 
@@ -118,6 +122,8 @@ def spec_coq(s):
         return f"(SAncestor {coq_option(s[1], str)})"
     if k == "mainline":
         return f"(SMainline {spec_coq(s[1])})"
+    if k == "revnoat":
+        return f"(SRevnoAt {coq_Z(s[1])} {coq_option(s[2], str)})"
     raise ValueError(s)
 
 
@@ -125,6 +131,8 @@ def _other_of(s):
     """(has ancestor:, its tip)"""
     if s[0] == "ancestor":
         return True, s[1]
+    if s[0] == "revnoat":
+        return True, s[2]
     if s[0] in ("before", "mainline"):
         return _other_of(s[1])
     return False, None
@@ -168,6 +176,16 @@ def _specs_for(rng, g, tip, tags, tier):
     if others:
         out.append(["before", ["ancestor", others[0]]])
         out.append(["mainline", ["ancestor", others[0]]])
+    # a number resolved in ANOTHER branch (revno:N:LOCATION), alone and under mainline: -- the other
+    # branches preferred are those whose tip was merged into this one off the mainline
+    anc = msortlib.present_ancestors(g, tip) if tip is not None else set()
+    ml = set(_mainline(g, tip))
+    merged = [o for o in others if o in anc and o not in ml]
+    for o in (merged[:1] + [x for x in others if x not in merged][:1]):
+        olast = daglib.revno_of(g, o) or 0
+        for k in sorted({1, olast, -1, olast + 1}):
+            out.append(["revnoat", k, o])
+            out.append(["mainline", ["revnoat", k, o]])
     return out
 
 
@@ -275,6 +293,27 @@ def _seq_cases(rng, g, tier):
             break
         if done >= (2 if tier == "quick" else 4):
             break
+    # a reader holds ONE read lock and keeps resolving numbers while another Branch object moves
+    # the tip: the reader must keep answering for the tip it saw first (a consistent snapshot)
+    for _ in range(3 if tier == "quick" else 6):
+        tip = rng.choice(good)
+        pool = list(range(n))
+        last = daglib.revno_of(g, tip) or 0
+        steps = [["spec", ["revno", rng.randint(1, max(1, last)), True]], ["revno", rng.choice(pool)]]
+        for _k in range(rng.randint(1, 2)):
+            steps.append(["wtip", rng.choice([t for t in good if t != tip] or good)])
+            for _q in range(rng.randint(3, 5)):
+                x = rng.random()
+                if x < 0.35:
+                    steps.append(["spec", rng.choice([["revno", rng.randint(0, last + 1), rng.random() < 0.5],
+                                                      ["revno", -rng.randint(1, last + 1), True],
+                                                      ["last", rng.randint(1, last + 1)],
+                                                      ["before", ["revno", rng.randint(1, max(1, last)), True]]])])
+                elif x < 0.55:
+                    steps.append(["id", [rng.randint(1, max(1, last))]])
+                else:
+                    steps.append(_query(rng, g, tip, pool))
+        yield {"kind": "seq", "lock": "read", "g": g, "tip": tip, "tags": [], "steps": steps}
     for _ in range(2 if tier == "quick" else 5):
         tip = rng.choice(good)
         t0 = tip
@@ -380,10 +419,17 @@ def _impl_seq(inp, br):
     h, g = _state["h"], inp["g"]
     others = {st[1]: h.other_branch(g, st[1]) for st in inp["steps"] if st[0] == "pull"}
     out = []
-    with br.lock_write():
+    read = inp.get("lock") == "read"
+    with (br.lock_read() if read else br.lock_write()):
+        if read:
+            br.last_revision_info()          # the reader's snapshot starts here
         for st in inp["steps"]:
             what = st[0]
-            if what == "tip":
+            if what == "wtip":
+                from breezy.branch import Branch
+                msortlib.set_tip(Branch.open(br.base), g, st[1])     # another Branch object, its own write lock
+                out.append(Tag("tip"))
+            elif what == "tip":
                 if st[1] is None:
                     br.set_last_revision_info(0, b"null:")
                 else:
@@ -433,6 +479,8 @@ def model_term(inp):
         def step(st):
             if st[0] in ("tip", "pull"):
                 return f"(SetTip {_o(st[1])})"
+            if st[0] == "wtip":
+                return f"(OtherTip {_o(st[1])})"
             if st[0] == "spec":
                 return f"(QSpec {spec_coq(st[1])})"
             if st[0] == "dotted":
@@ -463,6 +511,8 @@ def _expect_spec(g, tip, tags, s, real_map):
         if v == 0:
             return ("ok", None)
         return ("ok", ml[v - 1]) if 1 <= v <= len(ml) else ("err",)
+    if k == "revnoat":
+        return _expect_spec(g, s[2], tags, ["revno", s[1], False], {})
     if k == "dotted":
         r = real_map.get(tuple(s[1]))
         return ("ok", r) if r is not None else ("err",)
@@ -658,7 +708,7 @@ def _oracle_spec(g, tip, tags, spec, obs):
         if rev != e[1]:
             return f"{name} of {spec_str(inp['spec'], 'OTHER')!r} gave {rev}, the specifier names {e[1]}"
     if not isinstance(o1, Err):
-        ml = _mainline(g, tip)
+        ml = _mainline(g, spec[2] if spec[0] == "revnoat" else tip)     # revno:N:LOCATION counts in that branch
         want = 0 if o1[1] is None else (ml.index(o1[1]) + 1 if o1[1] in ml else None)
         if o1[0] != want:
             return f"in_history reports revno {o1[0]} for revision {o1[1]} whose mainline number is {want}"
@@ -673,6 +723,8 @@ def _oracle_seq(inp, obs):
         if what in ("tip", "pull"):
             tip = st[1]
             continue
+        if what == "wtip":
+            continue             # another object moved the tip: this reader's lock still shows the old one
         where = f"step {k} (tip {tip} after {[x for x in inp['steps'][:k] if x[0] in ('tip', 'pull')]})"
         ml = _mainline(g, tip)
         rmap = msortlib.revno_map(g, tip)
